@@ -1,6 +1,7 @@
 import TT.Model.Util
 import TT.Model.Dispatch
 import TT.Driver.C13
+import TT.Driver.C03
 namespace TT.Driver
 open TT TT.Dispatch TT.Gen
 
@@ -75,8 +76,38 @@ def insertSorted (s : String) : List String → List String
   | [] => [s]
   | x :: xs => if s ≤ x then s :: x :: xs else x :: insertSorted s xs
 
+/-- the real direct forwarder behind the dispatch: the decision of the C03 model for the
+destination, carried through the generated status / warning tables (an attempted connect is failed
+by the door's stub with ECONNREFUSED, a resolver failure is an I/O error) -/
+def c10Real (allow v6ok : Bool) (dest : TT.Ip.Dest) : String :=
+  let err : ConnErr := match TT.Ip.connectDecision allow v6ok dest with
+    | .connect _ => .io
+    | .loopback => .dnsLoopback
+    | .nonroutable => .dnsNonroutable
+    | .resolveFailed => .io
+  let w := warnOf err
+  let warn := match w.filterMap (fun e => match e with | .warn c => some c | _ => none) with
+    | c :: _ => toString c
+    | [] => "-"
+  s!"{statusOf err} {warn} {if w.contains .challenge then 1 else 0} {if w.contains .dnshost then 1 else 0}"
+
 def c10 (toks : List String) : String :=
   match toks with
+  | "real" :: allow :: v6ok :: kind :: rest =>
+    let nums := rest.map String.toNat!
+    match kind with
+    | "addr" =>
+      match parseIp nums with
+      | some (ip, [port]) => c10Real (allow == "1") (v6ok == "1") (.addr ⟨ip, port⟩)
+      | _ => "bad-op"
+    | "host" =>
+      match nums with
+      | n :: rest =>
+        match parseSocks n rest with
+        | some l => c10Real (allow == "1") (v6ok == "1") (.host (some l))
+        | none => "bad-op"
+      | _ => "bad-op"
+    | _ => "bad-op"
   | "session" :: _proto :: rest =>
     match parseAuthn rest with
     | none => "bad-op"
